@@ -136,7 +136,7 @@ func Routes(c explore.Chooser) *prog.Program {
 	}
 	ret := rets[rk]
 	layout := s.Pick("layout", "r0-first-of-3", "r0-last-of-3", "r0-only", "r0-middle-with-noise")
-	prefix := s.Pick("prefix", "", "/api", "/zzz", "/api/it", "/inner")
+	prefix := s.Pick("prefix", "", "/api", "/zzz", "/api/it", "/inner", "/api/inner", "/api/pkg/sub", "/inner/e")
 	regSite := s.Pick("registration", "in-func", "in-method", "two-funcs", "nested-block")
 	shadow := s.Pick("shadowed-const", "no", "local-shadows-package-const", "two-locals-same-name")
 
